@@ -175,3 +175,24 @@ def _in_guard(fn, name_node):
             if terminates(st.body) and any(n is name_node for b in st.body for n in ast.walk(b)):
                 return True
     return False
+
+
+def screen_exprs(repo):
+    """(distance expression, cutoff expression, operator) of is_integral_screened in the symbols exps_one, exps_two, A, B, eps."""
+    scr = repo.func("gbasis.integrals.overlap.is_integral_screened")
+    fn = scr.node
+    p1, p2, ptol = scr.params[:3]
+    D = Defs(fn)
+    rets = [n for n in walk_no_nested(fn) if isinstance(n, ast.Return) and not (isinstance(n.value, ast.Constant))]
+    if len(rets) != 1:
+        raise AnalysisError("CMP", "computed return of is_integral_screened not found", scr.where())
+    nc = normal_compare(rets[0].value)
+    if nc is None:
+        raise AnalysisError("CMP", "screening decision is not a comparison", scr.where(rets[0]))
+    lhs, op, rhs = nc
+    A, B, eps = sp.symbols("A B eps", positive=True)
+    ea, eb = sp.symbols("exps_one exps_two", positive=True)
+
+    def mk():
+        return Elem(scr, {ptol: eps}, rule="CUT", attr_symbols={f"{p1}.exps": ea, f"{p2}.exps": eb, f"{p1}.coord": A, f"{p2}.coord": B})
+    return eval_through_defs(mk(), D, lhs), eval_through_defs(mk(), D, rhs), op, (ea, eb, A, B)
